@@ -357,8 +357,12 @@ class Gen:
             elif c < 0.965 and self.functions:
                 f = r.choice(self.functions)
                 ins = [self.pick(pool, "F2") for _ in f["ins"]]
-                if len(ins) > 1 and f.get("optional_last") and r.random() < 0.4:
-                    ins = ins[:-1] if r.random() < 0.5 else ins[:-1] + [""]
+                if f.get("optional_last"):
+                    lo = self.pick(pool, "F")
+                    if lo is None or r.random() < 0.5:
+                        ins = ins[:-1] if r.random() < 0.5 else ins[:-1] + [""]
+                    else:
+                        ins[-1] = lo
                 outs = [o] + [self.fresh() for _ in f["outs"][1:]]
                 attrs = {}
                 for p in f["attrs"] + sorted(f["defaults"]):
@@ -504,8 +508,18 @@ class Gen:
                 cands.append(o)
         if len(set(outs)) != len(outs):
             outs = list(dict.fromkeys(outs))
+        optional_last = False
+        if r.random() < 0.3:
+            # an OPTIONAL last input (only used as the `min` of a Clip): call sites may omit it ("" or shorter input list)
+            optional_last = True
+            opt = f"fa{idx}_opt"
+            src = outs[0] if outs[0] not in ins else ins[0]
+            co = self.fresh()
+            nodes.append({"op": "Clip", "ins": [src, opt], "outs": [co], "attrs": {}})
+            ins = ins + [opt]
+            outs = [co] + outs[1:] if outs[0] not in ins else outs + [co]
         f = {"name": f"Fn{idx}", "dom": "local", "ins": ins, "outs": outs, "attrs": [p for p in params if p not in defaults],
-             "defaults": defaults, "nodes": nodes, "optional_last": False}
+             "defaults": defaults, "nodes": nodes, "optional_last": optional_last}
         return f
 
     def structural_only_off(self):
